@@ -73,6 +73,11 @@ func (vm *varyMatcher) varyHeadersMatchOne(entry *ResponseRef, reqHeader http.He
 	if entry.Vary == "*" {
 		return false // Vary: "*" never matches
 	}
+	for member := range TrimmedCSVSeq(entry.Vary) {
+		if member == "*" {
+			return false // a list containing "*" never matches either (RFC 9110 §12.5.5)
+		}
+	}
 	for field, value := range entry.VaryResolved {
 		reqValues := reqHeader[field]
 		// an empty value is comparable and means "no variation"
